@@ -72,7 +72,7 @@ def run(ctx):
     disagreements = []
 
     # ---- (A) the coding comment matcher -----------------------------------------------------------
-    na = 3000 if tier == "quick" else 60000
+    na = 3000 if tier == "quick" else 600000
     req, got = [], []
     seeds = ["# -*- coding: utf-8 -*-\nx", "## coding=latin-1\n", "#coding:a coding:b\n", "# coding:\n\n koi8-r \n", "# coding: utf-8", "#!x\n# coding: ascii\n",
              "# vim: set fileencoding=cp1251 :\nt", "# coding : utf-8\n", "# coding: utf-8\n", "# coding: Жé\n", "#\rcoding:x\r\n", "# coding:-\n", "coding: utf-8\n"]
